@@ -336,58 +336,42 @@ impl<W, R, T> CompilationScope<'_, W, R, T> {
                 let mut inners = input.clone().into_inner();
                 let part1 = inners.next().unwrap();
                 match part1.as_rule() {
-                    Rule::signature => {
-                        let mut sig_inners = part1.into_inner();
-                        let param_spec_opt = sig_inners.next().unwrap();
-                        let param_types = param_spec_opt
-                            .into_inner()
-                            .next()
-                            .map(|p| {
-                                p.into_inner()
-                                    .map(|i| {
-                                        self.get_complete_type(
-                                            i,
-                                            generic_param_names,
-                                            interner,
-                                            tail_name,
-                                            false,
-                                        )
-                                    })
-                                    .collect::<Result<Vec<_>, _>>()
-                            })
-                            .transpose()?
-                            .unwrap_or_default();
-                        let return_type = self.get_complete_type(
-                            sig_inners.next().unwrap(),
-                            generic_param_names,
-                            interner,
-                            tail_name,
-                            false,
-                        )?;
-                        Ok(Arc::new(XType::XCallable(XCallableSpec {
-                            param_types,
-                            return_type,
-                        })))
-                    }
                     Rule::tup_type => {
-                        let mut tup_inners = part1.into_inner();
-                        match tup_inners.next() {
-                            None => Ok(Arc::new(XType::Tuple(vec![]))),
-                            Some(inner) => {
-                                let tup_types = inner
-                                    .into_inner()
-                                    .map(|i| {
-                                        self.get_complete_type(
-                                            i,
-                                            generic_param_names,
-                                            interner,
-                                            tail_name,
-                                            false,
-                                        )
-                                    })
-                                    .collect::<Result<Vec<_>, _>>()?;
-                                Ok(Arc::new(XType::Tuple(tup_types)))
+                        let mut param_types = vec![];
+                        let mut return_type = None;
+                        for inner in part1.into_inner() {
+                            match inner.as_rule() {
+                                Rule::signature_return => {
+                                    return_type = Some(self.get_complete_type(
+                                        inner.into_inner().next().unwrap(),
+                                        generic_param_names,
+                                        interner,
+                                        tail_name,
+                                        false,
+                                    )?);
+                                }
+                                _ => {
+                                    param_types = inner
+                                        .into_inner()
+                                        .map(|i| {
+                                            self.get_complete_type(
+                                                i,
+                                                generic_param_names,
+                                                interner,
+                                                tail_name,
+                                                false,
+                                            )
+                                        })
+                                        .collect::<Result<Vec<_>, _>>()?;
+                                }
                             }
+                        }
+                        match return_type {
+                            Some(return_type) => Ok(Arc::new(XType::XCallable(XCallableSpec {
+                                param_types,
+                                return_type,
+                            }))),
+                            None => Ok(Arc::new(XType::Tuple(param_types))),
                         }
                     }
                     Rule::auto_type => {
